@@ -22,6 +22,9 @@ type c02Case struct {
 	Trail string  `json:"trail,omitempty"` // hex of trailing bytes
 	Len   int     `json:"len,omitempty"`   // input length if < 4 (short input case)
 	Short bool    `json:"short,omitempty"`
+	// Prefix: words decoded on the SAME fresh parser before Word (their outcome is not judged
+	// here): a decode must not depend on what the parser saw before
+	Prefix []uint32 `json:"prefix,omitempty"`
 }
 
 // detailsText returns Details.String(), or a marker if it panics.
@@ -44,6 +47,23 @@ func showEffects(in model.Instruction) string {
 
 // c02Word checks one word; ps may be nil (replay).
 func c02Word(ps *riscv.Parser, c c02Case) (*eng.Fail, bool) {
+	if len(c.Prefix) > 0 {
+		p := rvx.Parser(c.Cfg)
+		ps = &p
+		for _, w := range c.Prefix {
+			eng.Catch(func() { ps.Parse(0x1000, rvx.WordBytes(w)) })
+		}
+		cc := c
+		cc.Prefix = nil
+		f, acc := c02Word(ps, cc)
+		if f != nil {
+			f.Sig += " (after other words on the same parser)"
+			f.What += fmt.Sprintf(" — decoded after %08x on the same parser", c.Prefix)
+			c.Hex = fmt.Sprintf("%08x", c.Word)
+			f.Case = c
+		}
+		return f, acc
+	}
 	if ps == nil {
 		p := rvx.Parser(c.Cfg)
 		ps = &p
@@ -102,7 +122,7 @@ func c02Word(ps *riscv.Parser, c c02Case) (*eng.Fail, bool) {
 
 func init() {
 	checks["C02"] = eng.Check{
-		Rule:        "quick: the structured quotient of the word space — all 2^22 combinations of bits[31:20] x funct3 x opcode[6:0] with rd=rs1=0, and for rv32ima/rv64ima additionally each of them with every single rd/rs1 bit set and with rd=rs1=31 — in all 8 configurations; thorough: ALL 2^32 words x 8 configurations. Acceptance and mnemonic compared with a decoder table written from the specification listings. Inputs of length 0..3 and trailing bytes {00, ffffffff, the word again} on every accepted quotient word of two configurations. Non-trivial = accepted word.",
+		Rule:        "quick: the structured quotient of the word space — all 2^22 combinations of bits[31:20] x funct3 x opcode[6:0] with rd=rs1=0, and for rv32ima/rv64ima additionally each of them with every single rd/rs1 bit set and with rd=rs1=31 — in all 8 configurations; thorough: ALL 2^32 words x 8 configurations. Acceptance and mnemonic compared with a decoder table written from the specification listings. History independence: every instruction of the configuration (3 fillings of its operand bits) and 8 undefined words decoded on a fresh parser right after each of 12 other words (thorough: after every ordered pair of them), rejected and accepted ones of every matcher group. Inputs of length 0..3 and trailing bytes {00, ffffffff, the word again} on every accepted quotient word of two configurations. Non-trivial = accepted word.",
 		Assumptions: []string{"reference: harness/rvref table (DESIGN.md appendix A): base I + Zicsr + M + A, fence with fm=rd=rs1=0, fence.i/ecall/ebreak exact words, reserved shamt bits zero, lr with rs2=0, aq/rl free"},
 		Run: func(r *eng.Run) {
 			cfgs := rvx.AllCfgs()
@@ -172,6 +192,43 @@ func init() {
 						r.Nontrivial(acc)
 					})
 				}
+				// history independence: every instruction of the configuration (three fillings of its
+				// operand bits) and some undefined words, decoded on a fresh parser right after each of
+				// 12 other words (rejected ones, words of other configurations, accepted ones of each
+				// matcher group); thorough: after every ordered pair of them
+				poison := []uint32{0xffffffff, 0x00000000, 0x0000007f, 0x02c58533 /* mul */, 0x00c5853b /* addw */, 0x0805a52f, /* amoswap.w */
+					0x00c58533 /* add */, 0xfffff0b7 /* lui */, 0xfe000ee3 /* beq */, 0x0005a503 /* lw */, 0x00000073 /* ecall */, 0x1005a52f /* lr.w */}
+				var targets []uint32
+				for _, row := range rvref.Rows(cfg.Ref()) {
+					for _, fill := range []uint32{0, 0x00c58593, 0xffffffff} {
+						targets = append(targets, row.Match|^row.Mask&fill)
+					}
+				}
+				targets = append(targets, 0xffffffff, 0, 0x0000007f, 0x02c58533, 0x00c5853b, 0x0805a52f, 0x0000600f, 0xc0001073)
+				var prefixes [][]uint32
+				for _, p := range poison {
+					prefixes = append(prefixes, []uint32{p})
+				}
+				if !r.Quick() {
+					for _, p := range poison {
+						for _, q := range poison {
+							prefixes = append(prefixes, []uint32{p, q})
+						}
+					}
+				}
+				r.Par(len(prefixes), func(pi int) {
+					for _, t := range targets {
+						f, acc := c02Word(nil, c02Case{Cfg: cfg, Word: t, Prefix: prefixes[pi]})
+						r.Eval(1)
+						if acc {
+							r.Nontrivial(1)
+						}
+						if f != nil {
+							r.Report(f)
+							r.Outcome(f.Sig)
+						}
+					}
+				})
 				// short inputs
 				for l := 0; l < 4; l++ {
 					for _, w := range []uint32{0x00000013, 0xffffffff, 0x00000000, 0x00000073} {
